@@ -2,9 +2,9 @@ package symex
 
 import (
 	"fmt"
+	"go/token"
 	"math/big"
 	"regexp"
-	"go/token"
 	"strings"
 
 	"golang.org/x/tools/go/ssa"
